@@ -385,6 +385,9 @@ def run(ctx):
                ctx.where(rec), 'recycler constructs %s, `?` propagations %d' % (made, len(resid)), construct='recycler-error-surface', sites=made)
 
     build_runtime_check(ctx, r, 'R10.5')
+    # ---- R10.10 configuration plumbing: the pool-level timeouts are the ones that were set ---------------------------------
+    builder_plumbing(ctx, 'R10.10', ['timeouts', 'wait_timeout', 'create_timeout', 'recycle_timeout', 'config', 'runtime'])
+    pool_level_timeouts(ctx, r, 'R10.10')
 
     # ---- R10.7 unmanaged timeout_get -----------------------------------------------------------------------------------------
     u = uroles(ctx)
@@ -444,6 +447,23 @@ def run(ctx):
             if blk.term.kind == 'call' and 'deadpool_runtime::Runtime::timeout' in blk.term.callee_names() and not blk.cleanup:
                 s1 = sources(tan, blk.term.args[1])
                 ctx.ob('R10.7', 'Runtime::timeout gets the per-call timeout', any(x[0] == 'upvar' and x[1].split('.')[0] in tg.upvars_of_type('std::option::Option<std::time::Duration>') for x in s1), ctx.where(tg, blk.term.line), '', construct='u-timeout:duration')
+
+    # unmanaged get() waits under the configured timeout
+    ug = [b_ for b_ in prog.bodies.values() if b_.is_coroutine and b_.name == 'deadpool::unmanaged::Pool::get::{closure#0}']
+    if len(ug) != 1:
+        ctx.undecide('R10.7', 'unmanaged Pool::get coroutine not found')
+    else:
+        gb = ug[0]; gan = prog.an(gb)
+        ctx.saw(gb)
+        ctor = u.TIMEOUT_GET.j.get('parent')
+        calls = [blk for blk in gb.blocks if blk.term.kind == 'call' and not blk.cleanup and blk.term.rcallee == ctor]
+        okg = False; det = '%d calls of timeout_get' % len(calls)
+        if len(calls) == 1:
+            src = sources(gan, calls[0].term.args[1], deep=True)
+            okg = any(x[0] == 'field' and x[1] == 'deadpool::unmanaged::config::PoolConfig.timeout' for x in src) and not any(x[0] == 'agg' and x[1].startswith('std::option::Option') for x in src) \
+                and not any(x[0] == 'const' and not str(x[1]).startswith('fn') for x in src)
+            det = 'argument from %s' % sorted({str(x[1]) for x in src if x[0] in ('field', 'agg', 'const')})
+        ctx.ob('R10.7', 'unmanaged get() waits under the configured timeout', okg, ctx.where(gb), det, construct='u-get:configured-timeout')
 
     # ---- R10.8 deadpool-runtime ----------------------------------------------------------------------------------------------
     rt = prog.body('deadpool_runtime::Runtime::timeout::{closure#0}')
